@@ -31,7 +31,7 @@ JudgeCopy(e) ==
         \* input shape: the object being copied is itself a copy whose annotation set is targeted at another object
         V("C12.EqualAfterCopy", (IF ForeignTarget(prev) THEN "copy-of-object-with-foreign-annotation-target" ELSE rc) \o "/raised:" \o e.raised)
     ELSE LET eq == ViewEqClause(dd, e.vs, e.vc)
-             sh == SharingExactClause(e.g, dd, e.src, e.cpy)
+             sh == SharingExactClause(AsJudged(e.g, dd), dd, e.src, e.cpy)
              bd == BoundClause(dd, e.vs, e.vc)
              hid == dd \in {"TNS", "NewNS"} /\ ~ForeignTarget(e.vs) /\ ForeignTarget(e.vc)
              \* input shape: the source of this copy already carries such a foreign annotation target
@@ -55,9 +55,9 @@ JudgeMutate(e) ==
         rc == st.route \o "/" \o st.cls
         opre == IF e.side = "src" THEN st.vc ELSE st.vs
         opost == IF e.side = "src" THEN e.vc ELSE e.vs
-        vis == VisibleClause(st.g, e.g, dd, st.src, st.cpy, e.side)
-        vi == ViewIndepClause(dd, TouchesShared(st.g, e.g, dd, st.src, st.cpy), opre, opost)
-        shu == SharingUpperClause(e.g, dd, st.src, st.cpy)
+        vis == VisibleClause(AsJudged(st.g, dd), AsJudged(e.g, dd), dd, st.src, st.cpy, e.side)
+        vi == ViewIndepClause(dd, TouchesShared(AsJudged(st.g, dd), AsJudged(e.g, dd), dd, st.src, st.cpy), opre, opost)
+        shu == SharingUpperClause(AsJudged(e.g, dd), dd, st.src, st.cpy)
     IN
     IF e.raised # "" THEN
         (IF e.side = "cpy" THEN V("C12.EqualAfterCopy", rc \o "/mutation-raised-on-copy:" \o e.op \o ":" \o e.raised)
